@@ -305,6 +305,7 @@ def cases(tier):
     add("gd-lmi-nonsym", lmis=['nonsym2', 'nonsym2b'])
     add("quad", fclass='quad')
     add("composite-inexact", second='convex', steps=['inexact', 'prox'], unused=True)
+    add("composite-sub-div", second='convex', steps=['inexact', 'prox'], composite_ops='sub-div')
     add("qg-late-leaf", fclass='qg', stationary=False)
     add("function-lmi", function_lmi=True)
     add("function-lmi-and-constraint", function_lmi=True, function_lmi_with_constraint=True, lmis=['one'])
